@@ -671,6 +671,7 @@ class Exec:
         self.pdb = pdb
         self.contracts = contracts or {}   # fn key -> python callable(ex, st, args, info) -> value
         self.opaque = opaque or set()      # fn keys summarised as uninterpreted calls
+        self.opaque_calls = []             # (callee, snapshot of args, path condition at the call) for each of them
         self.obligations = []
         self.cfgs = {}
         self.next_fid = 1
@@ -811,9 +812,17 @@ class Exec:
             if all(e[0] == 'c' for e in elems) and len(elems) > 8:
                 name = self.pdb.register_table([e[1] for e in elems])
                 return mk('idx', name, p, elems[0][2])
-            # select chain (out-of-range index is a separate bounds obligation)
-            out = elems[-1]
+            # select (out-of-range index is a separate bounds obligation)
             ity = ty_of(p) or 'usize'
+            if len(elems) > 16:
+                # balanced decision tree on the index: logarithmic depth, and runs of equal elements collapse
+                def build(lo, hi):
+                    if lo == hi:
+                        return elems[lo]
+                    mid = (lo + hi) // 2
+                    return mk_ite(mk_bin('Le', p, C(mid, ity), ity, 'bool'), build(lo, mid), build(mid + 1, hi))
+                return build(0, len(elems) - 1)
+            out = elems[-1]
             for i in range(len(elems) - 2, -1, -1):
                 out = mk_ite(mk_bin('Eq', p, C(i, ity), ity, 'bool'), elems[i], out)
             return out
@@ -1436,6 +1445,7 @@ class Exec:
             if callee in self.opaque:
                 rty = self.pdb.tys(self.pdb.fn(callee)['mir']['locals'][0])
                 snap = [self.load(st, a) if a[0] == 'ref' else a for a in args]
+                self.opaque_calls.append((callee, snap, self.gs(st)))
                 ret = mk_call('fn:' + callee, snap, rty)
                 rt = self.pdb.ty(self.pdb.fn(callee)['mir']['locals'][0])
                 if rt['k'] == 'tuple':
